@@ -20,19 +20,24 @@ structure TaskSt where
   payloadRan : Bool := false
   /-- `CancelTask` signals scheduled and not yet delivered / revoked -/
   pendingCancels : List Int := []
+  /-- inside `Task.__close__` of a started task: `_result` already holds the closure, `__runner__.close()` is running the
+  payload's clean-up (`finally` / `except` blocks) and has not come back yet -/
+  closing : Bool := false
   deriving Repr, DecidableEq
 
 inductive Act where
   | start                       -- first activation of `payload_wrapper`
-  | finishValue (v : Int)       -- payload returned
-  | finishError (e : Nat)       -- payload raised
+  | finishValue (v : Int)       -- payload returned (wrapper: `else: self._result = result, None`)
+  | finishError (e : Nat)       -- payload raised (wrapper: `except BaseException as err: self._result = None, err`)
   | cancel (token : Int)        -- `Task.cancel(token)`
-  | deliverCancel               -- the oldest pending CancelTask is thrown into the wrapper
-  | close                       -- `Task.__close__` (scope end)
+  | deliverCancel               -- the oldest pending CancelTask is thrown into the payload and leaves it again
+  | swallowCancel               -- the oldest pending CancelTask is thrown into the payload, which catches it and goes on
+  | close                       -- `Task.__close__` (scope end): stores the closure; a started task begins its clean-up
+  | cleanupDone                 -- the GeneratorExit of `__runner__.close()` left the payload (wrapper: `except GeneratorExit`)
   deriving Repr, DecidableEq
 
 /-- tail of the wrapper: revoke pending cancellations, `_done.__set_done__()` -/
-def finalize (s : TaskSt) : TaskSt := { s with runner := .finished, done := true, pendingCancels := [] }
+def finalize (s : TaskSt) : TaskSt := { s with runner := .finished, done := true, pendingCancels := [], closing := false }
 
 def step (s : TaskSt) : Act → TaskSt
   | .start =>
@@ -40,9 +45,10 @@ def step (s : TaskSt) : Act → TaskSt
     else if s.result.isSome then { s with runner := .finished }        -- pre-run cancel / close: payload closed unrun
     else { s with runner := .running, payloadRan := true }
   | .finishValue v =>
-    if s.runner = .running ∧ s.result.isNone then finalize { s with result := some (.value v) } else s
+    -- (the wrapper does not look at `_result`: a payload that ends by itself *while it is being closed* overwrites the closure)
+    if s.runner = .running ∧ (s.result.isNone ∨ s.closing) then finalize { s with result := some (.value v) } else s
   | .finishError e =>
-    if s.runner = .running ∧ s.result.isNone then finalize { s with result := some (.failed e) } else s
+    if s.runner = .running ∧ (s.result.isNone ∨ s.closing) then finalize { s with result := some (.failed e) } else s
   | .cancel tok =>
     if s.result.isSome then s
     else if s.runner = .created then { s with result := some (.cancelled tok), done := true }
@@ -53,10 +59,16 @@ def step (s : TaskSt) : Act → TaskSt
     | tok :: rest =>
       if s.runner = .running ∧ s.result.isNone then finalize { s with result := some (.cancelled tok) }
       else { s with pendingCancels := rest }
+  | .swallowCancel =>
+    match s.pendingCancels with
+    | [] => s
+    | _ :: rest => { s with pendingCancels := rest }
   | .close =>
     if s.result.isSome then s
     else if s.runner = .created then { s with result := some .closed, done := true }
-    else finalize { s with result := some .closed }
+    else { s with result := some .closed, closing := true }
+  | .cleanupDone =>
+    if s.closing then finalize s else s
 
 def run (s : TaskSt) (acts : List Act) : TaskSt := acts.foldl step s
 
